@@ -5,7 +5,7 @@ from verifkit.core import *
 THEOREMS = ["Cog.Builder." + t for t in [
     "C17_builder_omit_removes", "C17_builder_rename_only_renames", "C17_builder_frame_inplace",
     "C17_builder_duplicate_shape", "C17_builder_duplicate_identical_partial",
-    "C17_builder_duplicate_identical_counterexample",
+    "C17_builder_duplicate_identical_counterexample", "C17_builder_merge_into_frame", "C17_builder_compose_frame",
     "C17_option_omit_removes", "C17_option_rename_only_renames", "C17_option_add_comments_only_comments",
     "C17_option_duplicate_shape", "C17_option_duplicate_identical_partial", "C17_option_duplicate_identical_counterexample",
     "C17_array_to_append_same_target", "C17_map_to_index_same_target", "C17_unfold_boolean_same_target",
